@@ -26,6 +26,12 @@ impl Rng {
     pub fn pick<'a, T>(&mut self, v: &'a [T]) -> &'a T {
         &v[self.below(v.len() as u64) as usize]
     }
+    /// one of `fixed`, or (with equal weight) a fresh random value
+    pub fn pick_or<T: Copy>(&mut self, fixed: &[T], f: impl FnOnce(u64) -> T) -> T {
+        let r = self.next();
+        let i = self.below(fixed.len() as u64 + 1) as usize;
+        if i == fixed.len() { f(r) } else { fixed[i] }
+    }
     pub fn bytes(&mut self, n: usize) -> Vec<u8> {
         (0..n).map(|_| self.next() as u8).collect()
     }
